@@ -23,13 +23,13 @@ class C05(Check):
     prop_module = "PoxModel.Properties.C05"
     lean_targets = ["drv_c05"]
     driver = "drv_c05"
-    theorems = ["Pox.C05.sorted_inv", "Pox.C05.delivery_exact", "Pox.C05.delivery_order", "Pox.C05.reentrant_safe",
+    theorems = ["Pox.C05.reachable_inv", "Pox.C05.sorted_inv", "Pox.C05.delivery_exact", "Pox.C05.delivery_order", "Pox.C05.reentrant_safe",
                 "Pox.C05.once_removed", "Pox.C05.unsubscribe_exact", "Pox.C05.noerrors_partial", "Pox.C05.noerrors_defect",
                 "Pox.C05.undeclared_rejected", "Pox.C05.weak_gone", "Pox.C05.once_raises_defect"]
-    anchors = [("pox/lib/revent/revent.py", 221, 229), ("pox/lib/revent/revent.py", 233, 317),
-               ("pox/lib/revent/revent.py", 325, 382), ("pox/lib/revent/revent.py", 384, 476),
-               ("pox/lib/revent/revent.py", 478, 505), ("pox/lib/revent/revent.py", 531, 565),
-               ("pox/lib/revent/revent.py", 576, 600)]
+    R = "pox/lib/revent/revent.py"       # function bodies only (a `def` line runs at import time, not in a case)
+    anchors = [(R, 222, 229), (R, 241, 250), (R, 260, 317), (R, 329, 329), (R, 340, 382), (R, 391, 392), (R, 401, 410),
+               (R, 439, 476), (R, 487, 487), (R, 499, 499), (R, 505, 505), (R, 531, 565), (R, 582, 586), (R, 591, 594),
+               (R, 597, 600), ("pox/core.py", 139, 147)]
     trusted_base = ["model Model/Revent.lean hand-written from EventMixin (raiseEvent*, addListener*, removeListener, autoBindEvents, "
                     "CallProxy) as repaired by fixes/D01 and fixes/D28; tied to the code by this correspondence run",
                     "harness: scripted handlers, event ids normalised by the value of revent._nextEventID at case start, "
@@ -45,16 +45,18 @@ class C05(Check):
     technique = ("Lean 4 proof (invariants of a small-step machine with an explicit stack of delivery frames, for all handler behaviours and "
                  "all histories) + differential correspondence of the compiled model against real EventMixin objects with scripted handlers "
                  "+ independent Python oracle of the property over the observed invocation log")
-    level_text = ("Theorems sorted_inv / delivery_exact / delivery_order / reentrant_safe / once_removed / unsubscribe_exact / noerrors_partial / "
-                  "undeclared_rejected / weak_gone over the model of EventMixin: for every operation history, every handler behaviour (including "
-                  "handlers that subscribe, unsubscribe and raise re-entrantly, to any depth) and every number of machine steps. "
-                  "noerrors_defect and once_raises_defect are kernel-checked witnesses of the two open findings D24 / D30.")
+    level_text = ("Theorems reachable_inv / sorted_inv / delivery_exact / delivery_order / reentrant_safe / once_removed / unsubscribe_exact / "
+                  "noerrors_partial / undeclared_rejected / weak_gone over the model of EventMixin: for every operation history, every handler "
+                  "behaviour (including handlers that subscribe, unsubscribe and raise re-entrantly, to any depth) and every number of machine "
+                  "steps. noerrors_defect and once_raises_defect are kernel-checked witnesses of the two open findings D24 / D51 "
+                  "(the full statements noerrors_full / once_strict are kept as defs).")
     level_note = ("Trusted: Lean kernel, axioms propext/Classical.choice/Quot.sound, the hand-written model Model/Revent.lean (which mirrors the code "
                   "after fixes D01 and D28) and this harness. The theorems are about the model; the run ties it to the code on exhaustive small "
                   "histories and random histories of up to 80 operations with re-entrant scripts.")
     rule = ("case = operation history (subscribe with priority/once/weak/by-name/autoBind, unsubscribe in all 5 argument forms, raise in instance/"
             "class form with and without error suppression, clear, owner collection) + per-handler scripts of nested actions and return values; "
-            "corpus = hand-written seeds + every history of <= 3 ops over a 12-op alphabet under 8 script profiles; "
+            "corpus = hand-written seeds + every history of <= 3 ops (with at least one subscribe and one raise) over a 14-op alphabet under 8 "
+            "script profiles; generated = random histories of 3..80 ops with random scripts (thorough: + every 4-op history under one profile); "
             "non-trivial = some delivery invoked >= 2 handlers or a handler performed a nested action")
     coverage_cases = 400
 
@@ -111,11 +113,13 @@ class C05(Check):
     def _impl(self, case):
         rv, Ev = self.rv, self.Ev
         decl = True if case["acceptAll"] else set(Ev[i] for i in case["declared"])
-        Src = type("Src", (rv.EventMixin,), {"_eventMixin_events": decl})
+        ns = {"_eventMixin_events": decl}
+        if case.get("lazy"): ns["__init__"] = lambda self_: None        # a subclass that never calls EventMixin.__init__
+        Src = type("Src", (rv.EventMixin,), ns)
         src = Src()
         base = rv._nextEventID
         scripts = {h: l for h, l in case["scripts"]}
-        log, snaps, rmchecks, addchecks = [], {}, [], []
+        log, snaps, rmchecks, addchecks, subs = [], {}, [], [], []
         calls, funcs, owners, sinks, keep = {}, {}, {}, {}, []
         state = {"fid": 0}
 
@@ -133,7 +137,8 @@ class C05(Check):
             return [prio, hid, bool(once), eid - base, weak]
 
         def dump():
-            return [[k.idx if isinstance(k, type) else str(k), [entry_view(x) for x in l]] for k, l in src._eventMixin_handlers.items()]
+            return [[k.idx if isinstance(k, type) else str(k), [entry_view(x) for x in l]]
+                    for k, l in getattr(src, "_eventMixin_handlers", {}).items()]      # the dict does not exist before lazy initialisation
 
         def present(pred, et=None):
             for k, l in dump():
@@ -190,16 +195,20 @@ class C05(Check):
                 et, hid, weak = a["et"], a["hid"], a.get("weak")
                 h = method_of(hid, weak) if weak is not None else func_of(hid)
                 kw = dict(once=a["once"], weak=weak is not None, priority=a["prio"])
-                via = a.get("via", 0) % 4
+                via = a.get("via", 0) % 5
                 before = dump()
                 try:
                     if via == 1: r = src.addListenerByName("Ev%d" % et, h, **kw)
                     elif via == 2: r = src.add_listener(h, event_type=Ev[et], **kw)
                     elif via == 3: r = src.add_listener(h, event_name="Ev%d" % et, **kw)
+                    elif via == 4:                                   # event name inferred from the handler's name
+                        (h.__func__ if weak is not None else h).__name__ = "_handle_Ev%d" % et
+                        r = src.add_listener(h, **kw)
                     else: r = src.addListener(Ev[et], h, **kw)
                 except Exception as e:
                     addchecks.append([et, self._kind(e), before == dump()]); raise
                 addchecks.append([et, "ok", None])
+                subs.append([r[1] - base, r[0].idx, hid, bool(a["once"]), weak])
                 return ["pair", r[0].idx, r[1] - base]
             if op == "bind":
                 ets, hb, weak = a["ets"], a["base"], a.get("weak")
@@ -218,6 +227,7 @@ class C05(Check):
                 if via == 1: r = src.addListeners(sink, weak=weak is not None, priority=a["prio"])
                 elif via == 2: r = sink.listenTo(src, weak=weak is not None, priority=a["prio"])
                 else: r = rv.autoBindEvents(sink, src, weak=weak is not None, priority=a["prio"])
+                for t, e in r: subs.append([e - base, t.idx, hb + t.idx, False, weak])
                 return ["pairs", [[t.idx, e - base] for t, e in r]]
             if op in ("rmh", "rme", "rmp"):
                 if op == "rmh":
@@ -252,7 +262,7 @@ class C05(Check):
             if op == "raise":
                 et, fid = a["et"], state["fid"]; state["fid"] += 1
                 snaps[fid] = {"et": et, "noerr": a["noerr"], "form": a["form"], "pos": len(log),
-                              "snap": [entry_view(x) for x in src._eventMixin_handlers.get(Ev[et], [])], "result": None}
+                              "snap": [entry_view(x) for x in getattr(src, "_eventMixin_handlers", {}).get(Ev[et], [])], "result": None}
                 f = src.raiseEventNoErrors if a["noerr"] else src.raiseEvent
                 try:
                     r = f(Ev[et](fid)) if a["form"] == "inst" else f(Ev[et], fid)
@@ -279,8 +289,8 @@ class C05(Check):
             s = snaps[fid]
             if fid in started or (isinstance(s["result"], list) and s["result"][0] == "event"):
                 frames.append([fid, s["et"], [e[3] for e in s["snap"]]])
-        return {"log": log, "frames": frames, "final": dump(), "count": src._eventMixin_get_listener_count(),
-                "snaps": {str(k): v for k, v in snaps.items()}, "rmchecks": rmchecks, "addchecks": addchecks, "drops": drops}
+        return {"log": log, "frames": frames, "final": dump(), "count": sum(len(l) for _, l in dump()),
+                "snaps": {str(k): v for k, v in snaps.items()}, "rmchecks": rmchecks, "addchecks": addchecks, "drops": drops, "subs": subs}
 
     # ------------------------------------------------------------------ model side
     def model_request(self, case):
@@ -356,6 +366,20 @@ class C05(Check):
         # unsubscription
         for form, was, still, res in obs["rmchecks"]:
             if still: return "unsubscribe: removeListener form %s left the subscription in place (%s)" % (form, res)
+        # ... and nothing else: a subscription nobody had any reason to remove is still there at the end
+        acts = list(case["ops"]) + [a for _, sl in case["scripts"] for sc_ in sl for a, _ in sc_["acts"]]
+        if not any(a["op"] == "clear" for a in acts):
+            named_eids = set(a["eid"] for a in acts if a["op"] in ("rme", "rmp"))
+            named_hids = set(a["hid"] for a in acts if a["op"] == "rmh")
+            dropped = set(a["o"] for a in acts if a["op"] == "drop")
+            asking = set(h for h, sl in case["scripts"] for sc_ in sl
+                         if sc_["ret"]["k"] == "false" or (sc_["ret"]["k"] == "tup2" and sc_["ret"]["r"]))
+            final = {k: set(e[3] for e in l) for k, l in obs["final"]}
+            for eid, et, hid, once, weak in obs["subs"]:
+                if once or eid in named_eids or hid in asking or (weak is None and hid in named_hids) or (weak is not None and weak in dropped):
+                    continue
+                if eid not in final.get(et, ()):
+                    return "unsubscribe: subscription %d (handler %d) vanished although nothing unsubscribed it" % (eid, hid)
         # undeclared subscription
         for et, res, unchanged in obs["addchecks"]:
             if not declared(et) and res != "revent": return "undeclared: subscription to an undeclared event type was not rejected (%s)" % res
@@ -378,6 +402,8 @@ class C05(Check):
     def finding_key(self, case, obs, failure):
         if failure.startswith("noerrors:"): return "noerrors:handler-" + failure.rsplit(" ", 1)[1] + "-propagates"
         if failure.startswith("once: one-shot handler that raised"): return "once:handler-raises:still-subscribed"
+        if failure.startswith("unsubscribe: subscription"): return "unsubscribe:vanished-without-reason"
+        if failure.startswith("order:"): return "order:list-not-sorted"
         if failure.startswith("unsubscribe:"):
             return "unsubscribe:" + failure.split("form ")[1].split(" ")[0] + ":" + failure.rsplit("(", 1)[1].rstrip(")")
         if failure.startswith("delivery"): return failure.split(":")[0] + ":" + failure.rsplit("(", 1)[1].rstrip(")")
@@ -413,8 +439,8 @@ class C05(Check):
         r = {"k": ret}; r.update(kw)
         return {"acts": [[a, g] for a, g in acts], "ret": r}
 
-    def case(self, ops, scripts=(), declared=(0, 1), acceptAll=False):
-        return {"declared": list(declared), "acceptAll": acceptAll, "ops": list(ops), "scripts": [[h, list(l)] for h, l in scripts]}
+    def case(self, ops, scripts=(), declared=(0, 1), acceptAll=False, lazy=False):
+        return {"declared": list(declared), "acceptAll": acceptAll, "lazy": lazy, "ops": list(ops), "scripts": [[h, list(l)] for h, l in scripts]}
 
     def seeds(self):
         add, R, sc, case = self.add, self.raise_, self.sc, self.case
@@ -426,7 +452,7 @@ class C05(Check):
         S.append(case([add(0, 1), add(0, 2), R(0), R(0)], [(1, [sc([(add(0, 3, prio=5), False)])])]))
         # un-prioritised subscription during delivery must not join the in-flight delivery
         S.append(case([add(0, 1), add(0, 2), R(0), R(0, "cls")], [(1, [sc([(add(0, 3), False)])])]))
-        # D28 / D24 / D30
+        # D28 / D24 / D51
         S.append(case([add(0, 1), add(0, 2), rme(1, 0), R(0), rme(2, 1), rme(2, 2)]))
         S.append(case([add(0, 1), R(0, "inst", True), R(0, "cls", True)], [(1, [sc([(add(2, 2), False)]), sc(ret="exc", e="revent")])]))
         S.append(case([add(0, 1, once=True), add(0, 2), R(0, "inst", True), R(0), R(0)], [(1, [sc(ret="exc", e="other")])]))
@@ -453,7 +479,10 @@ class C05(Check):
         S.append(case([add(2, 1), add(2, 1, via=1), add(2, 1, via=3), R(2), R(2, "cls"), R(2, "inst", True), R(2, "cls", True), {"op": "count"}]))
         S.append(case([add(2, 1), add(2, 2, 3), R(2), R(2, "cls")], declared=[], acceptAll=True))
         # by-name spellings
-        S.append(case([add(0, 1, via=1), add(0, 2, 5, via=3), add(1, 3, via=2, once=True), R(0), R(1), R(1)]))
+        S.append(case([add(0, 1, via=1), add(0, 2, 5, via=3), add(1, 3, via=2, once=True), add(1, 4, 2, via=4), add(2, 5, via=4), R(0), R(1), R(1)]))
+        # a source whose __init__ never ran: every entry point initialises lazily
+        for first in (R(0), R(0, "cls"), R(0, "inst", True), add(0, 1), rme(1), rmh(1), {"op": "clear"}):
+            S.append(case([first, add(0, 2), R(0)], lazy=True))
         # weak handlers
         S.append(case([add(0, 1, weak=1), add(0, 2), add(1, 3, weak=1, prio=3), add(0, 4, weak=2), R(0), rmh(1), R(0), {"op": "drop", "o": 1}, R(0), R(1),
                        {"op": "count"}, {"op": "drop", "o": 2}, R(0), add(0, 1, weak=1), R(0)]))
@@ -507,7 +536,7 @@ class C05(Check):
         if x < 0.30:
             ctx["adds"] += 1
             weak = rng.choice([1, 2, 3]) if rng.random() < 0.15 else None
-            return self.add(rng.choice(ets), rng.randint(1, 6), rng.choice([0, 0, 0, 0, 5, 5, -1, 7, 3]), rng.random() < 0.25, weak, rng.randint(0, 3) if rng.random() < 0.3 else 0)
+            return self.add(rng.choice(ets), rng.randint(1, 6), rng.choice([0, 0, 0, 0, 5, 5, -1, 7, 3]), rng.random() < 0.25, weak, rng.randint(0, 4) if rng.random() < 0.3 else 0)
         if x < 0.36:
             return {"op": "rmh", "hid": rng.choice([1, 2, 3, 4, 5, 6, 100, 101, 111]), "et": et_or_none()}
         if x < 0.46:
@@ -555,19 +584,21 @@ class C05(Check):
                     for _ in range(rng.choice([0, 0, 1, 1, 2, 3])):
                         a = self.rand_action(rng, ctx, 1)
                         if a["op"] == "bind": continue                         # sinks are bound at top level only (fresh identities)
-                        if acceptAll and a["op"] == "add" and a["via"] in (1, 3): a["via"] = 0
+                        if acceptAll and a["op"] == "add" and a["via"] in (1, 3, 4): a["via"] = 0
                         acts.append([a, rng.random() < 0.5])
                     sl.append({"acts": acts, "ret": self.rand_ret(rng)})
                 scripts.append([hid, sl])
-        return {"declared": declared, "acceptAll": acceptAll, "ops": ops, "scripts": scripts}
+        # (the private helper _eventMixin_get_listener_count assumes an initialised source: no `count` before the first initialising op)
+        lazy = rng.random() < 0.1 and ops[0]["op"] in ("add", "raise", "rmh", "rme", "rmp", "bind", "clear")
+        return {"declared": declared, "acceptAll": acceptAll, "lazy": lazy, "ops": ops, "scripts": scripts}
 
     def generate(self, rng, tier):
-        n = 700 if tier == "quick" else 12000
+        n = 700 if tier == "quick" else 10000
         for _ in range(n):
             yield self.rand_case(rng, rng.choice([3, 5, 8, 12, 20, 40, 80]))
         if tier == "thorough":
             profs = self.profiles()
-            for c in self.exhaustive(4, [profs[rng.randrange(len(profs))] for _ in range(2)]):
+            for c in self.exhaustive(4, [profs[rng.randrange(len(profs))]]):
                 yield c
 
     def search_cases(self, rng, tier):
